@@ -32,6 +32,8 @@ var c06Fixed = []string{
 	"a", "\\", "\"", "\n", "C:\\new", "C:\\\\new", "\\n", "\\\"", "\\u0041", "\\u00e9", "\\\\u0041", "42", "true", "null", "[1,2]", "{\"a\":1}",
 	"\"quoted\"", "<p>Hello <b>world</b> &amp; co</p>", "<a href=\"https://example.com/?a=1&b=2\">x</a>", "line1\nline2\r\n\ttabbed",
 	"\x00", "\x01\x02\x1f", "\x7f", "\b\f\v\a", "é", "ünïcode ✓", "日本語", "😀", "a😀b𝄞c", "\u2028", "x\u2028y\u2029z", "first line\u2028second line",
+	// the neighbours of the two separators the writer escapes: general punctuation and the bidirectional controls
+	"\u2026", "a\u2027b", "\u202a\u202b\u202c\u202d\u202e", "\u2066x\u2067y\u2068z\u2069", "\u2060\u200b\u200e\u200f", "\u2030\u203f",
 	"\ufffd", "\uffff", "\u0080", "\u07ff\u0800", "\U00010000\U0010ffff", "/", "\\/", "ends with backslash\\", "\\\\", "\\\\\\", "\"\\\"\\",
 	" ", "  leading and trailing  ", "0", "-1.5e3", "\\t\\r\\b\\f", "\\x41", "\\u12", "\\ud83d\\ude00", "\\ud83d", "%22%5C", "&quot;", "'single'",
 	"{\"type\":\"Delete\"}", "\",\"type\":\"Delete", "\\\",\\\"type\\\":\\\"Delete",
@@ -66,7 +68,11 @@ func genText(r *RNG) []byte {
 		case p < 88:
 			b = utf8.AppendRune(b, rune(0x10000+r.Intn(0x100000)))
 		case p < 92:
-			b = utf8.AppendRune(b, []rune{0x2028, 0x2029, 0xFFFD, 0xFFFF, 0x7FF, 0x800, 0xD7FF, 0xE000, 0x10FFFF}[r.Intn(9)])
+			if r.Bool() {
+				b = utf8.AppendRune(b, rune(0x2000+r.Intn(0x70))) // the whole General Punctuation block around U+2028/9
+			} else {
+				b = utf8.AppendRune(b, []rune{0x2028, 0x2029, 0xFFFD, 0xFFFF, 0x7FF, 0x800, 0xD7FF, 0xE000, 0x10FFFF}[r.Intn(9)])
+			}
 		default:
 			b = append(b, []byte(r.Pick([]string{"true", "null", "42", "[", "]", "{", "}", ":", ",", "\"a\":1"}))...)
 		}
